@@ -43,11 +43,12 @@ theorem decode_over_default {α} (zero : α) (pre : W α) (m : Member α) (hm : 
 theorem absent_keeps_default {α} (zero : α) (pre : W α) : decodeOver zero pre .omitted = pre := rfl
 
 /-- **(regenerated facts) the generic `Decode` of the template assigns what `decodeOver` says it assigns**: all three
-    fields on the null path, `Set` and `Null` before a value is decoded — read off the text of
-    `gen/_template/json/encoders_generic.tmpl` on every run -/
+    fields on the null path, `Set` and `Null` before a value is decoded — read off the Go that the generator of the
+    working tree writes for a probe document (`(*OptNilString).Decode`, go/ast, as sorted sets of assignments to the
+    receiver) on every run -/
 theorem facts_generic_decode :
-    Facts.Tmpl.genericDecodeNullPath = ["o.Value = v", "o.Set = true", "o.Null = true"] ∧
-    Facts.Tmpl.genericDecodeValueResets = ["o.Set = true", "o.Null = false"] := by decide
+    Facts.Tmpl.genericDecodeNullPath = ["o.Null = true", "o.Set = true", "o.Value = <value>"] ∧
+    Facts.Tmpl.genericDecodeValueResets = ["o.Null = false", "o.Set = true"] := by decide
 
 /-! ### the codec of the object / array / wrapper fragment (`JCodec`) -/
 open JCodec in
